@@ -11,11 +11,10 @@ Statically decided clauses:
      test compare the state with the same threshold, with the same strictness                      (R4)
 Not decided: encode(decode(bits)) == bits for all states; exactness of num_valid_bits.
 """
-from vlib import sym, rules, effects
+from vlib import sym, rules, effects, anchors
 import props.C08 as c08
 
 ANS = c08.ANS
-CHUNKS = 'bit_array_to_chunks_truncated'
 
 
 def state_atom(t):
@@ -23,13 +22,17 @@ def state_atom(t):
 
 
 def check_same_source(ctx, F):
+    chunker = anchors.state_chunker(F)
+    if chunker is None:
+        ctx.bad('R4', 'anchor: state chunker', ANS, 'the function into_compressed uses to chunk the state could not be resolved', key='R4/anchor/chunker')
+        return
     exporters = []
     for b in F.bodies:
         if b.promoted is not None or '::tests::' in b.defpath or b.dk not in ('Fn', 'AssocFn'):
             continue
         if not (b.file.endswith('stream/stack.rs')):
             continue
-        if any((rules.callee(t) or {}).get('name') == CHUNKS for _, t in b.calls()):
+        if chunker is not None and any((rules.callee(t) or {}).get('def') == chunker.defpath for _, t in b.calls()):
             exporters.append(b)
     ctx.extra['state_exporters'] = len(exporters)
     if len(exporters) < 6:
@@ -43,7 +46,7 @@ def check_same_source(ctx, F):
         n = 0
         for r in paths or []:
             for e in r.events:
-                if e['kind'] == 'call' and e['name'] == CHUNKS:
+                if e['kind'] == 'call' and e['callee'] == chunker.defpath:
                     n += 1
                     a = e['args'][0]
                     if not state_atom(a):
@@ -92,8 +95,8 @@ def check_marker_pairing(ctx, F):
         else:
             ctx.bad('R2', 'from_binary fails only with the backend\'s read error', fb.defpath, 'error sources: %s' % sorted(errs), key=k3, loc=rules.loc(fb))
     # consumers of the marker chunk: SEALED guard (new) and into_binary
-    for frag, name in ((['stream::stack::CoderGuard', '::new'], 'new'), ([ANS + '::<', '::into_binary'], 'into_binary')):
-        b = c08.get_body(F, frag, name)
+    _g, gnew, _gd = anchors.guard_of(F, ANS, 'get_binary')
+    for frag, name, b in ((['view guard of AnsCoder::get_binary'], 'new', gnew), ([ANS, 'into_binary'], 'into_binary', anchors.method(F, ANS, 'into_binary'))):
         key = 'R5/marker-stripped/' + (b.defpath if b else '::'.join(frag))
         role = 'exactly one leading chunk is dropped and it must equal Word::one()'
         if b is None:
@@ -152,8 +155,7 @@ def threshold_predicates(F, b, state_like):
 
 def check_refill_threshold(ctx, F):
     dec = [b for b in F.bodies if b.promoted is None and b.name == 'decode_symbol' and b.self_adt == ANS and b.impl_trait == 'stream::Decode']
-    fb = c08.get_body(F, [ANS + '::<', '::from_binary'], 'from_binary')
-    ri = c08.get_body(F, [ANS + '::<', '::read_initial_state'], 'read_initial_state')
+    fb, ri = anchors.ans_import_loops(F)
     key = 'R4/refill-threshold/' + ANS
     role = 'import loops and the decoder\'s refill test use the same threshold and strictness'
     if not dec or not fb or not ri:
